@@ -674,7 +674,7 @@ theorem removePlace_cfg' (g : Grid) (a : Aid) (q : Coord) : SameCfg g (removePla
 
 theorem moveToEmpty_cases (g : Grid) (a : Aid) (s : Script) (hw : 0 < g.w) (hh : 0 < g.h) (hi : Inv g) :
     (g.moveToEmpty a s = (g.readEmpties.1, .err .noEmpty) ∧ ∀ p, g.inGrid p → g.content p ≠ [])
-    ∨ g.moveToEmpty a s = (g.readEmpties.1, .err .script)
+    ∨ (g.moveToEmpty a s = (g.readEmpties.1, .err .script) ∧ ∃ p, g.inGrid p ∧ g.content p = [])
     ∨ ∃ q, g.inGrid q ∧ g.content q = [] ∧ g.moveToEmpty a s = removePlace g.readEmpties.1 a q := by
   have hspec := readEmpties_spec g hi
   have hobs := readEmpties_obs g
@@ -698,7 +698,12 @@ theorem moveToEmpty_cases (g : Grid) (a : Aid) (s : Script) (hw : 0 < g.w) (hh :
           | none => none
           | some (i, _) => es[i]?) = target
     cases target with
-    | none => left; rfl
+    | none =>
+      left
+      refine ⟨rfl, ?_⟩
+      cases es with
+      | nil => simp at hlen
+      | cons p ps => exact ⟨p, (hspec.2 p).mp (by simp)⟩
     | some q =>
       right
       refine ⟨q, ?_, ?_, rfl⟩
@@ -722,7 +727,7 @@ theorem moveToEmpty_inv_cfg (g : Grid) (a : Aid) (s : Script) (hw : 0 < g.w) (hh
     Inv (g.moveToEmpty a s).1 ∧ SameCfg g (g.moveToEmpty a s).1 := by
   have i0 := readEmpties_inv g hi
   have c0 := readEmpties_cfg g
-  rcases moveToEmpty_cases g a s hw hh hi with ⟨h, _⟩ | h | ⟨q, hq, _, h⟩
+  rcases moveToEmpty_cases g a s hw hh hi with ⟨h, _⟩ | ⟨h, _⟩ | ⟨q, hq, _, h⟩
   · rw [h]; exact ⟨i0, c0⟩
   · rw [h]; exact ⟨i0, c0⟩
   · rw [h]; exact ⟨removePlace_inv' _ a q i0 ((c0.inGrid q).mpr hq), c0.trans (removePlace_cfg' _ a q)⟩
@@ -1167,7 +1172,7 @@ theorem moveToEmpty_err (g : Grid) (a : Aid) (s : Script) (hw : 0 < g.w) (hh : 0
     (h : (g.moveToEmpty a s).2 = .err e) : (g.moveToEmpty a s).1 = g.readEmpties.1 := by
   have i0 := readEmpties_inv g hi
   have o0 := readEmpties_obs g
-  rcases moveToEmpty_cases g a s hw hh hi with ⟨h', _⟩ | h' | ⟨q, hq, hcq, h'⟩
+  rcases moveToEmpty_cases g a s hw hh hi with ⟨h', _⟩ | ⟨h', _⟩ | ⟨q, hq, hcq, h'⟩
   · rw [h']
   · rw [h']
   · rw [h'] at h ⊢
